@@ -89,4 +89,5 @@ def check(pid, tier, lines, gen_counts):
     if pid == "C14":
         nh = len({re.search(r'"grp":(\d+)', l).group(1) for l in lines if '"tag":"hnew"' in l and '"tid":0' in l and '"bid":1,' in l})
         _need(out, "TLC-exported histories replayed", nh, sum(v for k, v in gen_counts.items() if k.startswith("histories")))
+        _need(out, "TLC-exported renderer sessions replayed", len({re.search(r'"session":(\d+)', l).group(1) for l in lines if '"tag":"sessiongen:' in l}), gen_counts.get("sessions", 0))
     return out
